@@ -212,6 +212,16 @@ def gen_pairs(name, rng, n):
                     b = a[:i + 1] + rng.choice(["0", "1", "2", "10", "3", "01", "a", "rc1", "1.1", "0.5"])
         elif r < 0.5:
             b = mutate(a, rng)
+        elif r < 0.56:
+            # one digit run written with a leading zero (equal where the scheme reads a number, another version where
+            # it reads text)
+            import re
+            runs = [m.start() for m in re.finditer(r"[0-9]+", a)]
+            if runs:
+                i = rng.choice(runs[-2:] + runs)
+                b = a[:i] + "0" + a[i:]
+            else:
+                b = mutate(a, rng)
         elif r < 0.75 and pool:
             b = rng.choice(pool)
         else:
